@@ -209,9 +209,15 @@ impl Ctx {
                 let store = build(&text, &known, None);
                 let res = store.resource("r").unwrap();
                 let limit = 4 * (text.len() + 2) * (exprs.len() + 1);
+                // more than two expressions: every other case hands over a precompiled RegexSet
+                let preset = if exprs.len() > 2 && text.len() % 2 == 0 {
+                    regex::RegexSet::new(exprs.iter().map(|r| r.as_str())).ok()
+                } else {
+                    None
+                };
                 let o = guard(|| {
                     with_target!(res, mode, b, e, |x| {
-                        match x.find_text_regex(&exprs, None, allow) {
+                        match x.find_text_regex(&exprs, preset.as_ref(), allow) {
                             Err(_) => l(vec![a(-5)]),
                             Ok(iter) => {
                                 let mut v = Vec::new();
@@ -497,7 +503,7 @@ pub fn generate(out: &mut Out, tier: &str, seed: u64) {
         'a', 'b', 'A', 'B', ' ', ',', '\u{e9}', '\u{c9}', '\u{df}', '\u{1e9e}', '\u{130}', '\u{212a}', '\u{23a}', '\u{1c5}', '\u{4e2d}', '\u{1f600}', 'k', 'i',
     ];
     let plain: Vec<char> = vec!['a', 'b', 'A', 'B', ' ', ',', '\u{e9}', '\u{c9}', '\u{4e2d}', '\u{1f600}', 'k'];
-    let nrand = if thorough { 6000 } else { 500 };
+    let nrand = if thorough { 40000 } else { 1500 };
     for it in 0..nrand {
         let alpha = if it % 3 == 0 { &wide } else { &plain };
         let t = rand_text(&mut rng, alpha, if thorough { 14 } else { 10 });
@@ -558,10 +564,14 @@ pub fn generate(out: &mut Out, tier: &str, seed: u64) {
             for (i, p) in PATTERNS.iter().enumerate() {
                 emit(out, l(vec![a(3), txt(&tc), tg.clone(), a(1), l(vec![text_sx(p)])]), "find_text_regex (family)");
                 for (j, q) in PATTERNS.iter().enumerate() {
-                    if thorough || (i + j) % 3 == 0 {
+                    if thorough || (i + j) % 2 == 0 {
                         for allow in [0, 1] {
                             emit(out, l(vec![a(3), txt(&tc), tg.clone(), a(allow), l(vec![text_sx(p), text_sx(q)])]), "find_text_regex (family)");
                         }
+                    }
+                    // three expressions, the middle one never matches: pre-selection by a RegexSet
+                    if (i + 2 * j) % 5 == 0 {
+                        emit(out, l(vec![a(3), txt(&tc), tg.clone(), a(((i + j) % 2) as i64), l(vec![text_sx(p), text_sx("zz"), text_sx(q)])]), "find_text_regex (family, 3 expressions)");
                     }
                 }
             }
@@ -569,6 +579,6 @@ pub fn generate(out: &mut Out, tier: &str, seed: u64) {
     }
 }
 
-pub const RULE: &str = "Exhaustive: every text of length <=4 (thorough 5) over {a, A, e-acute (2 bytes), U+1F600 (4 bytes)} x the resource and every sub-selection (unbound, bound, bound through ResultItem<TextSelection>) x every needle / delimiter of length <=2 over the same alphabet (empty included) for find_text, find_text_nocase and split_text, x 5 trim sets for trim_text and trim_text_with; segmentation of every range of a 4- and a 5-character mixed-width text under every set of <=2 known selections (zero-width and end-of-text ones included) with milestones. Seeded random: texts up to 10 (thorough 14) characters over an 18-character alphabet with 1-4 byte characters incl. characters whose lower-casing changes the UTF-8 length or the number of characters (U+0130, U+1E9E, U+212A, U+023A), needles drawn from the text (case flipped) or at random, random trim sets, fragment sequences with a skip set (exact and case-insensitive), 1-4 regular expressions from a family of 20 (literals, classes, alternation, empty matches, word boundary, lazy, 0-2 capture groups incl. optional ones) with and without allow_overlap on the resource or a sub-selection, the regex crate's own matches on a plain copy of the slice being the oracle; every pattern and (a third of / thorough: all) ordered pattern pairs on 4 fixed texts; store-wide find_text over 1-3 resources. One evaluation = one operation call with its complete result list (begin, end and text of every returned selection). Non-trivial = the result has more than one selection (find/split/segmentation/sequence), something was trimmed, or a regex result exists. distinct = distinct model inputs.";
+pub const RULE: &str = "Exhaustive: every text of length <=4 (thorough 5) over {a, A, e-acute (2 bytes), U+1F600 (4 bytes)} x the resource and every sub-selection (unbound, bound, bound through ResultItem<TextSelection>) x every needle / delimiter of length <=2 over the same alphabet (empty included) for find_text, find_text_nocase and split_text, x 5 trim sets for trim_text and trim_text_with; segmentation of every range of a 4- and a 5-character mixed-width text under every set of <=2 known selections (zero-width and end-of-text ones included) with milestones. Seeded random: texts up to 10 (thorough 14) characters over an 18-character alphabet with 1-4 byte characters incl. characters whose lower-casing changes the UTF-8 length or the number of characters (U+0130, U+1E9E, U+212A, U+023A), needles drawn from the text (case flipped) or at random, random trim sets, fragment sequences with a skip set (exact and case-insensitive), 1-4 regular expressions from a family of 20 (literals, classes, alternation, empty matches, word boundary, lazy, 0-2 capture groups incl. optional ones) with and without allow_overlap on the resource or a sub-selection, the regex crate's own matches on a plain copy of the slice being the oracle; every pattern and (half of / thorough: all) ordered pattern pairs, and a fifth of the triples with a never-matching middle expression (RegexSet pre-selection, with and without a precompiled set), on 4 fixed texts (whole and two sub-selections); store-wide find_text over 1-3 resources. One evaluation = one operation call with its complete result list (begin, end and text of every returned selection). Non-trivial = the result has more than one selection (find/split/segmentation/sequence), something was trimmed, or a regex result exists. distinct = distinct model inputs.";
 
 pub const EXHAUSTIVE: bool = true;
